@@ -28,7 +28,7 @@ RULE = ("Random audio (widths 1/2/4, 1-4 channels, rates 8..48000, 0..60 samples
         "with stdlib wave/open, files written with stdlib are read by auditok.  Oracle: identical bytes (+rate/width/channels for "
         "wav); returned name == template.format(start,end,duration); exists_ok=False on an existing path -> FileExistsError, file "
         "unchanged and never opened for writing (sys.addaudithook 'open' events); load(x, skip, max_read).data == "
-        "full[round(s*rate) : round(s*rate)+round(m*rate)] incl. empty results and values beyond the end (round = Python's round(), ties to even); numpy() has shape (channels, samples) and [c][i] equals the struct-decoded signed little-endian value.  "
+        "full[round(s*rate) : round(s*rate)+round(m*rate)] incl. empty results and values beyond the end (round = Python's round(), ties to even); Also: skips of 2^20 / 2^22 / 2^23 samples on 2-3 channel audio (bytes and lazy raw files); numpy / array / memoryview / bytearray containers of 16-33 MiB written raw and wav.  numpy() has shape (channels, samples) and [c][i] equals the struct-decoded signed little-endian value.  "
         "Non-trivial = non-empty audio; distinct = distinct (audio, format, operation).")
 ASSUMPTIONS = [
     "the harness reads files with stdlib wave/open and decodes PCM with struct, never with auditok",
